@@ -494,6 +494,57 @@ async fn reqrep_matching(pki: &Pki) -> Outcome {
     Ok(())
 }
 
+
+// ------------------------------------------------------------------------------------------------ C04: a timely error under back-pressure
+async fn reqrep_backpressure(pki: &Pki) -> Outcome {
+    let (addr, _h) = step!("C04", "server start", start_server(pki, 0));
+    let cr = step!("C04", "connect", lib_connect(pki, addr, 0).await);
+    let topic = "/pressure/echo";
+    let mut replier = step!(
+        "C04",
+        "open replier",
+        cr.replier(topic)
+            .with_request_decoder(StringCodec)
+            .with_reply_encoder(StringCodec)
+            .with_handler(|req: String| async move { Ok::<String, anyhow::Error>(req) })
+            .open()
+            .await
+    );
+    tokio::spawn(async move {
+        let _ = replier.listen().await;
+    });
+    tokio::time::sleep(Duration::from_millis(300)).await;
+    let c1 = step!("C04", "connect", lib_connect(pki, addr, 0).await);
+    let timeout = Duration::from_secs(3);
+    let q = step!(
+        "C04",
+        "open requestor",
+        step!("C04", "timeout", c1.requestor(topic).with_request_encoder(StringCodec).with_reply_decoder(StringCodec).with_request_timeout(timeout)).open().await
+    );
+    const N: usize = 40;
+    let mut tasks = Vec::new();
+    for i in 0..N {
+        let mut q = q.clone();
+        tasks.push(tokio::spawn(async move {
+            let body = format!("{i:04}").repeat(64 * 1024); // 256 KiB
+            let r = q.request(body.clone()).await;
+            (i, r.map(|rep| rep == body))
+        }));
+    }
+    let patience = timeout + Duration::from_secs(12);
+    let started = std::time::Instant::now();
+    for t in tasks {
+        let left = patience.saturating_sub(started.elapsed());
+        match tokio::time::timeout(left, t).await {
+            Err(_) => return fail("C04", format!("one of {N} concurrent 256 KiB echo requests with a {timeout:?} timeout had returned neither a reply nor an error after {patience:?}")),
+            Ok(Err(e)) => return fail("C04", format!("a request task died: {e}")),
+            Ok(Ok((i, Ok(false)))) => return fail("C04", format!("request {i} returned Ok with another request's reply")),
+            Ok(Ok(_)) => {}
+        }
+    }
+    Ok(())
+}
+
 // ------------------------------------------------------------------------------------------------ C17: a stalled topic
 async fn stalled_topic(pki: &Pki) -> Outcome {
     let (addr, _h) = step!("C17", "server start", start_server(pki, 0));
@@ -511,6 +562,18 @@ async fn stalled_topic(pki: &Pki) -> Outcome {
             }
         }
     });
+    // five more publishers of the same connection, each writing until it is blocked: victims of the stall, not its cause
+    for _ in 0..5 {
+        let mut more = step!("C17", "open publisher", cflood.publisher(stalled).with_encoder(StringCodec).open().await);
+        tokio::spawn(async move {
+            let big = "y".repeat(256 * 1024);
+            loop {
+                if more.send(big.clone()).await.is_err() {
+                    break;
+                }
+            }
+        });
+    }
     tokio::time::sleep(Duration::from_millis(1500)).await;
     // many more registrations on the stalled topic, from several connections (their own time-outs are tolerated)
     let mut fillers = Vec::new();
@@ -525,8 +588,8 @@ async fn stalled_topic(pki: &Pki) -> Outcome {
         }));
     }
     tokio::time::sleep(Duration::from_millis(2500)).await;
-    // another topic must still work: on a brand-new connection, and on a connection that also queued on the stalled topic
-    for (who, client) in [("a new connection", step!("C17", "connect", lib_connect(pki, addr, 0).await)), ("a connection that also registered on the stalled topic", fillers[0].clone())] {
+    // another topic must still work: on a brand-new connection, on a connection that also queued on the stalled topic, and on the one whose publishers are stuck there
+    for (who, client) in [("a new connection", step!("C17", "connect", lib_connect(pki, addr, 0).await)), ("a connection that also registered on the stalled topic", fillers[0].clone()), ("the connection whose six publishers are blocked on the stalled topic", cflood.clone())] {
         let other = format!("/stall/other-{}", who.len());
         let mut sub = match tokio::time::timeout(STEP, client.subscriber(&other).with_decoder(StringCodec).open()).await {
             Ok(Ok(s)) => s,
@@ -691,10 +754,11 @@ async fn run_case(pki: &Pki, i: usize) -> Outcome {
         11 => stalled_topic(pki).await,
         12 => survive_outages(pki).await,
         13 => exhausted_budget(pki).await,
-        _ => pubsub_duplicate(pki).await,
+        14 => pubsub_duplicate(pki).await,
+        _ => reqrep_backpressure(pki).await,
     }
 }
-const NAMES: [&str; 15] = [
+const NAMES: [&str; 16] = [
     "registration rules on raw streams (invalid names, wrong first frames, role mismatch)",
     "isolation of five similar topic names",
     "pub/sub fidelity: no batching",
@@ -706,12 +770,13 @@ const NAMES: [&str; 15] = [
     "pub/sub fidelity: one partial batch flushed by finish()",
     "pub/sub fidelity: batches of 1, gzip, empty last payload",
     "request/reply matching: 24 concurrent requests on two streams, a timed-out request followed by a new stream",
-    "a stalled topic with 430 queued registrations over 7 connections must not block another topic",
+    "a stalled topic with 430 queued registrations over 7 connections and six blocked publishers on one connection must not block another topic",
     "two abrupt outages of 1.5 s: publisher, subscriber, requestor, its clone and replier all work again without being reopened",
     "the server never comes back: publisher and subscriber report too-many-retries within their budget",
     "pub/sub fidelity: a batching publisher duplicated with items still queued",
+    "request/reply under back-pressure: 40 concurrent 256 KiB echo requests each return a reply or an error in time",
 ];
-const PROPS: [&str; 15] = ["C07 C11", "C07", "C03", "C03", "C03", "C03", "C03", "C03", "C03", "C03", "C04", "C17", "C12 C04", "C12", "C03"];
+const PROPS: [&str; 16] = ["C07 C11", "C07", "C03", "C03", "C03", "C03", "C03", "C03", "C03", "C03", "C04", "C17", "C12 C04", "C12", "C03", "C04"];
 
 fn main() {
     let args: Vec<String> = std::env::args().skip(1).collect();
